@@ -52,7 +52,6 @@ MOOT = "moot: the addressed entity already left the status this handler acts on 
 CONSUME_OK = {
     "StartWorkflowHandler": [
         ({"execution.status != WorkflowStatus.NOT_STARTED"}, MOOT),
-        ({"execution.is_canceled"}, "canceled before it started: the CancelWorkflow step that set the flag pushes CompleteWorkflow in its own commit"),
     ],
     "StartWaitingWorkflowsHandler": [
         ({"!message.pipeline_config_id"}, "no concurrency group: nothing to promote"),
